@@ -131,6 +131,21 @@ public:
         i->~T();
       _end.item = newEnd;
     }
+    else if(size > _capacity)
+    {
+      T copy(value); // value may refer to an element, which reserve() is about to relocate
+      reserve(size);
+      T* end = _begin.item + size;
+      for (T* i = _begin.item + _size; i != end; ++i)
+      {
+#ifdef VERIFY
+        VERIFY(new(i)T(copy) == i);
+#else
+        new(i)T(copy);
+#endif
+      }
+      _end.item = end;
+    }
     else
     {
       reserve(size);
@@ -177,6 +192,19 @@ public:
   T& append(const T& value)
   {
     usize size = _end.item - _begin.item;
+    if(size + 1 > _capacity)
+    {
+      T copy(value); // value may refer to an element, which reserve() is about to relocate
+      reserve(size + 1);
+      T* item = _end.item;
+#ifdef VERIFY
+      VERIFY(new(item) T(copy) == item);
+#else
+      new(item) T(copy);
+#endif
+      ++_end.item;
+      return *item;
+    }
     reserve(size + 1);
     T* item = _end.item;
 #ifdef VERIFY
